@@ -181,12 +181,20 @@ class Client:
             from gym_gridverse.envs.yaml.factory import factory_env_from_data
 
             data = copy.deepcopy(load_yaml_data(self.spec['yaml']))
-            k, scale = edit['dup_reward']
-            src = data['reward_functions'][k % len(data['reward_functions'])]
-            data['reward_functions'].append({kk: (vv * scale if isinstance(vv, float) else vv) for kk, vv in src.items()})
+            if 'dup_reward' in edit:
+                k, scale = edit['dup_reward']
+                src = data['reward_functions'][k % len(data['reward_functions'])]
+                data['reward_functions'].append({kk: (vv * scale if isinstance(vv, float) else vv) for kk, vv in src.items()})
+                self.sim.ctx.probe('knob:yaml_duplicate_reward_name')
+            if 'reorder_actions' in edit:
+                import random
+
+                acts = list(data.get('action_space', ACTIONS))
+                random.Random(edit['reorder_actions']).shuffle(acts)
+                data['action_space'] = acts  # index i means the i-th configured action
+                self.sim.ctx.probe('knob:yaml_reordered_actions')
             self.mspec = spec_from_yaml_data(data)
             self.env = factory_env_from_data(copy.deepcopy(data))
-            self.sim.ctx.probe('knob:yaml_duplicate_reward_name')
         else:
             self.mspec = spec_from_yaml_data(load_yaml_data(self.spec['yaml']))
             self.env = factory_env_from_yaml(yaml_path(self.spec['yaml']))
